@@ -277,7 +277,7 @@ def gen_catalogue(rng, nrows, mix, profile):
     return cat
 
 
-FILE_STEMS = ['out', 'cat.v1', 'A.B.c', '.hidden', 'with space', 'x_comp', 'UPPER']
+FILE_STEMS = ['out', 'cat.v1', 'A.B.c', '.hidden', 'with space', 'x_comp', 'UPPER', 'κατάλογος_é']
 METAS = [None, {}, {'PROGRAM': 'Aegean', 'RUN-AS': 'aegean image.fits --table out.fits,out.csv ' + 'x' * 90,
                     'FITSFILE': '/data/d.ir/image_1.fits'}]
 
@@ -285,6 +285,53 @@ METAS = [None, {}, {'PROGRAM': 'Aegean', 'RUN-AS': 'aegean image.fits --table ou
 def digest(cat):
     import hashlib
     return hashlib.sha1(json.dumps(cat, sort_keys=True).encode()).hexdigest()[:12]
+
+
+CONTAINERS = ['list', 'tuple', 'ndarray', 'generator', 'iter', 'chain', 'filter']
+
+
+def wrap(cat, container):
+    """hand the catalogue over as the documented 'list or iterable object'"""
+    if container in (None, 'list'):
+        return cat
+    if container == 'tuple':
+        return tuple(cat)
+    if container == 'ndarray':
+        arr = np.empty(len(cat), dtype=object)
+        for k, c in enumerate(cat):
+            arr[k] = c
+        return arr
+    if container == 'generator':
+        return (c for c in cat)
+    if container == 'iter':
+        return iter(cat)
+    if container == 'chain':
+        import itertools
+        return itertools.chain(cat[:len(cat) // 2], cat[len(cat) // 2:])
+    if container == 'filter':
+        return filter(lambda c: True, cat)
+    raise ValueError(container)
+
+
+class debug_logging:
+    """root and 'Aegean' loggers at DEBUG (handlers silenced), restored afterwards"""
+    def __init__(self, on):
+        self.on = on
+
+    def __enter__(self):
+        if self.on:
+            import logging
+            self.lg = [logging.getLogger(), logging.getLogger('Aegean')]
+            self.old = [(l.level, l.propagate) for l in self.lg]
+            for l in self.lg:
+                l.setLevel(logging.DEBUG)
+            self.lg[1].propagate = False
+
+    def __exit__(self, *a):
+        if self.on:
+            for l, (lev, prop) in zip(self.lg, self.old):
+                l.setLevel(lev)
+                l.propagate = prop
 
 
 def make_case(rng, cat, ext, stem=None, prefix=None, meta_i=0, upper=False, subdir=None):
@@ -356,12 +403,22 @@ def real_roundtrip(ctx, case, root):
     meta = dict(meta) if meta is not None else None
     # history: earlier catalogues written to the SAME name first (their outcome is not judged here;
     # each of them is judged as the last write of its own, shorter, history)
+    container = case.get('container')
+    stats = {}
     for prev in case.get('history') or []:
         try:
             with warnings.catch_warnings():
                 warnings.simplefilter('ignore')
                 with np.errstate(all='ignore'):
-                    C.save_catalog(fn, build(prev), meta=dict(meta) if meta is not None else None, prefix=case['prefix'])
+                    C.save_catalog(fn, wrap(build(prev), container), meta=dict(meta) if meta is not None else None,
+                                   prefix=case['prefix'])
+                if case.get('read_between'):            # the application reads what it wrote, then rewrites it
+                    for f in os.listdir(d):
+                        pth = os.path.join(d, f)
+                        if os.path.splitext(f)[1][1:].lower() in TABLE_EXTS:
+                            C.load_table(pth)
+                            st = os.stat(pth)
+                            stats[pth] = (st.st_mtime_ns, st.st_size)
         except Exception:
             pass
     prior = set(os.listdir(d))
@@ -369,8 +426,17 @@ def real_roundtrip(ctx, case, root):
     try:
         with warnings.catch_warnings():
             warnings.simplefilter('ignore')
-            with np.errstate(all='ignore'):
-                C.save_catalog(fn, cat, meta=meta, prefix=case['prefix'])
+            with np.errstate(all='ignore'), debug_logging(case.get('debug')):
+                C.save_catalog(fn, wrap(cat, container), meta=meta, prefix=case['prefix'])
+        if case.get('same_mtime'):
+            # coarse-timestamp file systems / cp -p / rsync -t: the rewritten file carries the SAME mtime;
+            # only applied where the size is unchanged too
+            applied = 0
+            for pth, (mt, sz) in stats.items():
+                if os.path.exists(pth) and os.path.getsize(pth) == sz:
+                    os.utime(pth, ns=(os.stat(pth).st_atime_ns, mt))
+                    applied += 1
+            obs['same_stat_applied'] = applied
     except Exception as e:
         first = {}
         for letter, attrs in cat_spec:
@@ -648,7 +714,8 @@ def nontrivial_key(case):
     feats = feats or any(len(v) > 1 for v in lens.values())
     if not feats:
         return None
-    return (case['ext'], case['prefix'], case['meta'], digest(cat), digest(case.get('history') or []))
+    return (case['ext'], case['prefix'], case['meta'], digest(cat), digest(case.get('history') or []),
+            case.get('container'), bool(case.get('same_mtime')), bool(case.get('debug')))
 
 
 def summarise(case):
@@ -662,7 +729,8 @@ def summarise(case):
 
 def signature(case, what, extra):
     sig = dict(site='catalogs.save_catalog/load_table', what=what, ext=case['ext'], prefix=case['prefix'] is not None,
-               second_write=bool(case.get('history')))
+               second_write=bool(case.get('history')), container=case.get('container') or 'list',
+               same_stat_rewrite=bool(case.get('same_mtime')), debug_logging=bool(case.get('debug')))
     sig.update({k: v for k, v in extra.items() if k not in ('row', 'attr')})
     return sig
 
@@ -718,7 +786,8 @@ def run_cases(ctx, cases, do_shrink=True):
     lines = []
     for k, case in enumerate(cases):
         case['_dir'] = f"c{ctx.evaluations + k}"
-        obs = real_roundtrip(ctx, case, root)
+        with debug_logging(case.get('debug')):
+            obs = real_roundtrip(ctx, case, root)
         ml = model_lines(case, obs['filename']) if (ctx.driver_ok and not case.get('no_model')) else []
         work.append((case, obs, len(lines), len(ml)))
         lines += ml
@@ -751,6 +820,12 @@ def run_cases(ctx, cases, do_shrink=True):
                 ctx.fail('corr', rec, f"{case['ext']}: {detail}", dict(site='model', what=what, ext=case['ext']))
         if case.get('history'):
             ctx.count('history-step')
+        if case.get('container'):
+            ctx.count('container:' + case['container'])
+        if case.get('debug'):
+            ctx.count('debug-logging')
+        if obs.get('same_stat_applied'):
+            ctx.count('same-size-same-mtime-rewrite', obs['same_stat_applied'])
         if case['ext'] not in ('ann', 'reg') and obs.get('bytes') is not None:
             ctx.count('size:' + size_class(obs['bytes']))
             if case['ext'] in ('csv', 'tab'):
@@ -949,6 +1024,50 @@ def sized_cases(ctx, targets, model_limit=4000):
     return cases
 
 
+def container_cases(ctx, n_cats, max_rows, exts):
+    """mixed catalogues handed over as list / tuple / object array / one-shot iterables"""
+    rng = ctx.rng
+    cases = []
+    for k in range(n_cats):
+        cat = gen_catalogue(rng, rng.randint(3, max_rows), 'CIS', dict(atypical=rng.random() < 0.3, nan=0.05))
+        for j, L in enumerate('CIS'):
+            if not any(s_[0] == L for s_ in cat):
+                cat[j] = rand_source(rng, L, j + 1, {})
+        for ext in exts:
+            for container in CONTAINERS[1:]:
+                if k and rng.random() < 0.5:
+                    continue
+                c = make_case(rng, cat, ext, stem='cont', prefix=rng.choice([None, 'p']))
+                c['container'] = container
+                cases.append(c)
+    return cases
+
+
+def same_stat_cases(ctx, n_cats, max_rows):
+    """write, read back, rewrite the SAME name with a permutation of the rows (identical byte size) and
+    the same mtime, read back: what is read must be what was last written"""
+    rng = ctx.rng
+    cases = []
+    for k in range(n_cats):
+        cat = gen_catalogue(rng, rng.randint(4, max_rows), 'CIS' if k == 0 else rng.choice(['C', 'CIS']), dict(nan=0.03))
+        second = list(reversed(cat))
+        for ext in ['csv', 'tab', 'tex', 'vot', 'xml', 'fits']:
+            c = make_case(rng, second, ext, stem='samestat', prefix=None)
+            c['history'] = [cat]
+            c['read_between'] = True
+            c['same_mtime'] = True
+            cases.append(c)
+    return cases
+
+
+def debug_cases():
+    out = []
+    for c in corpus_cases() + corpus_histories():
+        if c['stem'] in ('corpus_mixed', 'corpus_nan_and_minus_one', 'corpus_rewrite', 'corpus_simples'):
+            out.append(dict(c, debug=True))
+    return out
+
+
 def check_hypotheses(ctx):
     """the hypotheses the theorems name, checked on the real classes"""
     cl = classes()
@@ -986,6 +1105,10 @@ def run(ctx):
     check_hypotheses(ctx)
     run_cases(ctx, corpus_cases())
     run_cases(ctx, corpus_histories())
+    run_cases(ctx, debug_cases())
+    run_cases(ctx, container_cases(ctx, 2 if ctx.quick else 10, 12 if ctx.quick else 60,
+                                   ['csv', 'fits', 'db', 'vot', 'reg'] if ctx.quick else ALL_EXTS + ['reg', 'ann']))
+    run_cases(ctx, same_stat_cases(ctx, 2 if ctx.quick else 12, 10 if ctx.quick else 80))
     if ctx.quick:
         run_cases(ctx, random_cases(ctx, 26, 300, ALL_EXTS))
         run_cases(ctx, history_cases(ctx, 5, 40, ALL_EXTS))
